@@ -304,6 +304,29 @@ pub fn faultrun(args: &Args) -> i32 {
                     }
                     let _ = std::fs::remove_dir_all(&copy);
                 }
+                // the retried call returned Ok: from now on a reopen must yield the state AFTER the call (a retry
+                // that reports success without making the operation durable is the failure mode of an in-memory
+                // version that ran ahead of the manifest)
+                if inst.tree.is_some() {
+                    copy_dir(&dir, &copy);
+                    let want_after = durable(&inst.model, &keys);
+                    match dump_copy(&c.cfg, &copy) {
+                        Err(e) => {
+                            violation = Some(tag("copy-after-retry-unopenable", format!("a copy of the directory taken after the successful retry: {e}")));
+                            break 'ops;
+                        }
+                        Ok(got) => {
+                            if !(same(&got, &want_after) || (matches!(op, Op::Ingest { .. }) && same_values(&got, &want_after))) {
+                                violation = Some(tag(
+                                    "retry-not-durable",
+                                    format!("reopening after the successful retry yields [{}], expected the state after the call [{}]", show(&got), show(&want_after.0)),
+                                ));
+                                break 'ops;
+                            }
+                        }
+                    }
+                    let _ = std::fs::remove_dir_all(&copy);
+                }
             }
             Err(v) => {
                 // anything else (wrong read, panic, audit finding of C16 itself)
